@@ -5,6 +5,7 @@ CONSTANTS
  MaxTicket = 40
  MaxStale = 4
  MaxExh = 2
+ MaxReins = 2
  AllowRemove = TRUE
  Dev = {}
  Depth = 40
